@@ -86,13 +86,21 @@ def signum (x : Float) : Float := if x.isNaN then x else copysign 1.0 x
 
 def trunc (x : Float) : Float := if signBit x then Float.ceil x else Float.floor x
 
+/-- exact remainder by binary long division: every subtraction `r - |y|·2^k` is exact -/
+def fmodLoop (ay : Float) : Nat → Float → Float
+  | 0, r => r
+  | fuel + 1, r =>
+    if r < ay then r else
+    let k := (Float.frExp r).2 - (Float.frExp ay).2
+    let t := ay.scaleB k
+    let t := if t > r then ay.scaleB (k - 1) else t
+    fmodLoop ay fuel (r - t)
+
+/-- C `fmod` / Rust `%`: exact, sign of the dividend -/
 def fmod (x y : Float) : Float :=
   if x.isNaN || y.isNaN || x.isInf || y == 0.0 then Float.ofBits 0x7FF8000000000000
   else if y.isInf then x
-  else
-    let r := x - y * trunc (x / y)
-    -- exact for the magnitudes the library uses (angles); keep the dividend's sign
-    if r == 0.0 then copysign 0.0 x else r
+  else copysign (fmodLoop y.abs 2200 x.abs) x
 
 def toI64 (x : Float) : Int :=
   if x.isNaN then 0
